@@ -29,9 +29,11 @@ CONSTANTS SideW, SideN,  \* names of the two copies' directories, encoded like R
           GenToks,    \* token names the generator builds paths from
           PathLen,    \* max tokens per generated path
           MaxReq,     \* requests per behaviour
+          Methods,    \* subset of {"GET", "HEAD"} the generator uses
+          Spells,     \* spellings of the configured root explored: subset of SpellNames
           SepCheck    \* TRUE: containment tested against root + "/" (the design); FALSE: naive prefix
 
-VARIABLES cfg,   \* [dflt, outside]
+VARIABLES cfg,   \* [dflt, outside, spell]
           n,     \* requests made
           lead,  \* generator only: first token of the paths explored from this initial state
                  \* ("none": no restriction / the empty path); it only spreads TLC's work over workers
@@ -94,6 +96,19 @@ Norm(segs) ==
                             ELSE IF s = <<DOT, DOT>> THEN (IF st = <<>> THEN st ELSE SubSeq(st, 1, Len(st) - 1))
                             ELSE Append(st, s),
              <<>>, segs)
+
+(* How the application spelled the root when configuring the handler.  The handler must treat the
+   root as os.path.abspath(spelling), so the response does not depend on the spelling:
+   plain  /tmp/P/S/r      trailing  /tmp/P/S/r/      dotted  /tmp/P/S/./r
+   dotdot /tmp/P/S/r/sub/..         relative  ../tmp/P/S/r  (from the working directory Cwd) *)
+SpellNames == {"plain", "trailing", "dotted", "dotdot", "relative"}
+Cwd == <<<<118, 101, 114, 105, 102>>>>                                   \* /verif
+SpelledRoot(c) ==
+    CASE c.spell = "plain" -> Root(c)
+      [] c.spell = "trailing" -> Root(c) \o <<<<>>>>
+      [] c.spell = "dotted" -> RootP(c) \o <<<<DOT>>, N_r>>
+      [] c.spell = "dotdot" -> Root(c) \o <<N_sub, <<DOT, DOT>>>>
+      [] c.spell = "relative" -> Cwd \o [i \in 1..Len(Cwd) |-> <<DOT, DOT>>] \o Root(c)
 
 (* the normalized absolute path of a request: [lead |-> 1 or 2 leading slashes, segs |-> names] *)
 Target(c, raw) ==
@@ -161,7 +176,7 @@ InitWith(c) ==
     /\ lead \in GenToks \cup {"none"}
     /\ step = [act |-> "init", args |-> <<>>, exp |-> Deny]
 
-InitState == \E d \in BOOLEAN, o \in BOOLEAN : InitWith([dflt |-> d, outside |-> o])
+InitState == \E d \in BOOLEAN, o \in BOOLEAN, sp \in Spells : InitWith([dflt |-> d, outside |-> o, spell |-> sp])
 
 (* one request; m in {"GET", "HEAD"}; raw is the path after /static/ *)
 Request(m, raw) ==
@@ -171,7 +186,7 @@ Request(m, raw) ==
     /\ step' = Obs("request", <<m, raw>>, cfg)
 
 Next == /\ n < MaxReq
-        /\ \E m \in {"GET", "HEAD"} :
+        /\ \E m \in Methods :
              IF lead = "none" THEN Request(m, <<>>)
              ELSE \E rest \in BoundedSeq(GenToks, PathLen - 1) : Request(m, RawOf(cfg, <<lead>> \o rest))
 
@@ -188,6 +203,8 @@ Confined == Req /\ step.exp.kind \in {"serve", "redirect"} => SegInside(cfg, Req
 ServesRootFilesOnly == Req /\ step.exp.kind = "serve" => step.exp.file \in InsideIds
 (* nothing outside the root influences the response (existence is not revealed) *)
 NonInterference == Req => RespondP(cfg, TRUE, step.args[2]) = RespondP(cfg, FALSE, step.args[2])
+(* every spelling of the root denotes the same directory *)
+SpellingIrrelevant == cfg.spell \in SpellNames /\ Norm(SpelledRoot(cfg)) = Root(cfg)
 (* the design's string test agrees with segment containment *)
 DesignIsSegmentwise == Req => (DesignInside(cfg, ReqT) <=> SegInside(cfg, ReqT))
 (* functional part: every file under the root is reachable by its plain relative path *)
